@@ -5,14 +5,14 @@ Import ListNotations.
 Require Import MayV.Sync.ChanMpmcModel MayV.Sync.ChanMpmcInv MayV.Sync.ChanMpmcTac.
 Require Import MayV.Sync.ChanMpmcPres1 MayV.Sync.ChanMpmcPres2 MayV.Sync.ChanMpmcPres3 MayV.Sync.ChanMpmcPres4 MayV.Sync.ChanMpmcPres5.
 
-Lemma inv_step s ac s' : Inv s -> step true true s ac = Some s' -> Inv s'.
+Lemma inv_step c s ac s' : Inv s -> step true true c s ac = Some s' -> Inv s'.
 Proof.
   intros Hi H. constructor.
-  - intro r. destruct (pres_links _ _ _ Hi H r) as (L1 & L2 & L3).
-    destruct (pres_rrest _ _ _ Hi H r) as (A1 & A2 & A3 & A4 & A5 & A6).
-    destruct (pres_r78 _ _ _ Hi H r) as (B1 & B2). unfold rinv. tauto.
-  - intro a. destruct (pres_slinks _ _ _ Hi H a) as (L1 & L2 & L3 & L4 & L5).
-    pose proof (pres_sdead _ _ _ Hi H a) as D. unfold sinv. tauto.
+  - intro r. destruct (pres_links _ _ _ _ Hi H r) as (L1 & L2 & L3).
+    destruct (pres_rrest _ _ _ _ Hi H r) as (A1 & A2 & A3 & A4 & A5 & A6 & A7).
+    destruct (pres_r78 _ _ _ _ Hi H r) as (B1 & B2). unfold rinv. tauto.
+  - intro a. destruct (pres_slinks _ _ _ _ Hi H a) as (L1 & L2 & L3 & L4 & L5).
+    pose proof (pres_sdead _ _ _ _ Hi H a) as D. unfold sinv. tauto.
   - eapply pres_nd; eauto.
   - eapply pres_cnt; eauto.
   - eapply pres_sem; eauto.
@@ -25,7 +25,8 @@ Proof.
   - eapply pres_ord; eauto.
 Qed.
 
-Theorem inv_reach s : Reach true true s -> Inv s.
+(* for the current code (fix7c = false) and for the code with the re-check of try_recv (fix7c = true) *)
+Theorem inv_reach c s : Reach true true c s -> Inv s.
 Proof. induction 1; [apply inv_init | eapply inv_step; eauto]. Qed.
 
 (* ------------------------------------------------------------------------------------------ *)
@@ -65,25 +66,25 @@ Qed.
 
 (* ------------------------------------------------------------------------------------------ *)
 (* C06 (i) *)
-Theorem mpmc_accounting s : Reach true true s -> sent s = map snd (rlog s) ++ drpd s ++ q s.
-Proof. intro H. exact (I_acc _ (inv_reach _ H)). Qed.
+Theorem mpmc_accounting c s : Reach true true c s -> sent s = map snd (rlog s) ++ drpd s ++ q s.
+Proof. intro H. exact (I_acc _ (inv_reach _ _ H)). Qed.
 
-Theorem mpmc_sender_sequence s a : Reach true true s -> filter (from a) (sent s) = map (pair a) (seq 0 (sn (Sd s a))).
-Proof. intro H. exact (I_ord _ (inv_reach _ H) a). Qed.
+Theorem mpmc_sender_sequence c s a : Reach true true c s -> filter (from a) (sent s) = map (pair a) (seq 0 (sn (Sd s a))).
+Proof. intro H. exact (I_ord _ (inv_reach _ _ H) a). Qed.
 
-Theorem mpmc_sent_distinct s : Reach true true s -> NoDup (sent s).
+Theorem mpmc_sent_distinct c s : Reach true true c s -> NoDup (sent s).
 Proof.
-  intro H. apply nodup_by_filter. intro a. rewrite (mpmc_sender_sequence s a H). apply nodup_map_pair, seq_NoDup.
+  intro H. apply nodup_by_filter. intro a. rewrite (mpmc_sender_sequence c s a H). apply nodup_map_pair, seq_NoDup.
 Qed.
 
 (* every value pushed by a successful send is in exactly one of: handed to exactly one receiver call
    (one entry of rlog), dropped by the last drop_rx / the final free, still queued; nothing else is *)
-Theorem mpmc_exactly_once s : Reach true true s ->
+Theorem mpmc_exactly_once c s : Reach true true c s ->
   NoDup (map snd (rlog s) ++ drpd s ++ q s) /\
   (forall v, In v (sent s) <-> In v (map snd (rlog s)) \/ In v (drpd s) \/ In v (q s)).
 Proof.
-  intro H. pose proof (mpmc_accounting s H) as E. split.
-  - rewrite <- E. apply mpmc_sent_distinct; auto.
+  intro H. pose proof (mpmc_accounting c s H) as E. split.
+  - rewrite <- E. apply mpmc_sent_distinct with (c := c); auto.
   - intro v. rewrite E, !in_app_iff. tauto.
 Qed.
 
@@ -91,10 +92,10 @@ Qed.
 Definition got (s : st) (r a : nat) : list nat :=
   map (fun e => snd (snd e)) (filter (fun e => Nat.eqb (fst e) r) (filter (fun e => from a (snd e)) (rlog s))).
 
-Theorem mpmc_per_receiver_order s r a : Reach true true s -> StronglySorted lt (got s r a).
+Theorem mpmc_per_receiver_order c s r a : Reach true true c s -> StronglySorted lt (got s r a).
 Proof.
   intro H. unfold got. apply sorted_filter_map.
-  pose proof (mpmc_sender_sequence s a H) as E. rewrite (mpmc_accounting s H), filter_app, filter_map_swap in E.
+  pose proof (mpmc_sender_sequence c s a H) as E. rewrite (mpmc_accounting c s H), filter_app, filter_map_swap in E.
   destruct (prefix_of_seq _ _ _ _ _ E) as [E1 _].
   replace (map (fun e : nat * (nat * nat) => snd (snd e)) (filter (fun e => from a (snd e)) (rlog s)))
     with (map snd (map snd (filter (fun e => from a (snd e)) (rlog s)))) by (rewrite map_map; reflexivity).
@@ -104,32 +105,32 @@ Qed.
 (* ------------------------------------------------------------------------------------------ *)
 (* C06 (ii): while a sender exists the permits never exceed the queued values, so a receiver that
    acquired a permit finds a value: `unreachable!("mpmc recv found no data")` is unreachable *)
-Theorem mpmc_permits_are_values s : Reach true true s -> txp s <> 0 -> rxp s <> 0 ->
+Theorem mpmc_permits_are_values c s : Reach true true c s -> txp s <> 0 -> rxp s <> 0 ->
   length (q s) = sv s + length (hold s) + length (pend s).
-Proof. intros H T X. destruct (I_e1 _ (inv_reach _ H) T) as [A B]. specialize (B X). lia. Qed.
+Proof. intros H T X. destruct (I_e1 _ (inv_reach _ _ H) T) as [A B]. specialize (B X). lia. Qed.
 
-Theorem mpmc_unreachable_is_unreachable s r : Reach true true s ->
+Theorem mpmc_unreachable_is_unreachable c s r : Reach true true c s ->
   rp (Rv s r) <> RPanic /\ (rp (Rv s r) = Y3n -> txp s = 0).
 Proof.
-  intro H. pose proof (I_R _ (inv_reach _ H) r) as Q. unfold rinv in Q.
+  intro H. pose proof (I_R _ (inv_reach _ _ H) r) as Q. unfold rinv in Q.
   destruct Q as (_ & _ & _ & _ & _ & _ & Q7 & Q8 & _). split; auto.
 Qed.
 
 (* a receiver holding a permit while a sender is alive faces a non-empty queue *)
-Theorem mpmc_holder_finds_value s r : Reach true true s -> rp (Rv s r) = Y2 -> txp s <> 0 -> q s <> [].
+Theorem mpmc_holder_finds_value c s r : Reach true true c s -> rp (Rv s r) = Y2 -> txp s <> 0 -> q s <> [].
 Proof.
-  intros H P T. pose proof (inv_reach _ H) as Hi. pose proof (I_R _ Hi r) as Q. unfold rinv in Q.
+  intros H P T. pose proof (inv_reach _ _ H) as Hi. pose proof (I_R _ Hi r) as Q. unfold rinv in Q.
   destruct Q as (Q1 & _ & _ & Q4 & _). rewrite P in *. assert (I : In r (hold s)) by tauto.
   assert (X : rxp s <> 0) by (apply (alive_rx s r Hi); apply Q4; reflexivity).
-  pose proof (mpmc_permits_are_values s H T X) as E. intro Z. rewrite Z in E. cbn in E.
+  pose proof (mpmc_permits_are_values c s H T X) as E. intro Z. rewrite Z in E. cbn in E.
   destruct (hold s); [destruct I | cbn in E; lia].
 Qed.
 
 (* the abstract semaphore: a positive value means that nobody is blocked; a blocked waiter is in wq *)
-Theorem mpmc_sem_contract s : Reach true true s ->
+Theorem mpmc_sem_contract c s : Reach true true c s ->
   (sv s <> 0 -> wq s = []) /\ (forall r, In r (wq s) <-> rp (Rv s r) = WB /\ rgr (Rv s r) = false).
 Proof.
-  intro H. pose proof (inv_reach _ H) as Hi. split; [apply (I_sem _ Hi)|].
+  intro H. pose proof (inv_reach _ _ H) as Hi. split; [apply (I_sem _ Hi)|].
   intro r. pose proof (I_R _ Hi r) as Q. unfold rinv in Q. tauto.
 Qed.
 
@@ -142,10 +143,10 @@ Definition quiescent (s : st) : Prop :=
 (* once every Sender is gone and nobody has a step left, a permit is available: no receiver is blocked
    in sem.wait(), alone or alongside other receivers - and the permits cover the queued values, so the
    calls that follow drain the queue before they answer Disconnected *)
-Theorem mpmc_no_hang_after_disconnect s : Reach true true s -> txp s = 0 -> quiescent s ->
+Theorem mpmc_no_hang_after_disconnect c s : Reach true true c s -> txp s = 0 -> quiescent s ->
   (forall r, rp (Rv s r) <> WB) /\ 1 <= sv s /\ length (q s) <= sv s.
 Proof.
-  intros H T [Qs Qr]. pose proof (inv_reach _ H) as Hi.
+  intros H T [Qs Qr]. pose proof (inv_reach _ _ H) as Hi.
   assert (Hh : hold s = []).
   { apply nil_of_notin. intros r I. pose proof (I_R _ Hi r) as Q. unfold rinv in Q. destruct Q as (Q1 & _).
     apply Q1 in I. destruct (Qr r) as [E|[E|[E G]]]; destruct I as [I|[I1 I2]]; congruence. }
@@ -160,44 +161,44 @@ Proof.
   pose proof (I_R _ Hi r) as Q. unfold rinv in Q. destruct Q as (_ & Q2 & _). assert (I : In r (wq s)) by tauto. rewrite W in I. destruct I.
 Qed.
 
-Theorem mpmc_disconnect_stable s ac s' : Reach true true s -> step true true s ac = Some s' -> txp s = 0 -> txp s' = 0.
+Theorem mpmc_disconnect_stable c s ac s' : Reach true true c s -> step true true c s ac = Some s' -> txp s = 0 -> txp s' = 0.
 Proof.
-  intros H St T. pose proof (inv_reach _ H) as Hi.
+  intros H St T. pose proof (inv_reach _ _ H) as Hi.
   step_cases St; boolh; unf; prj; auto; try congruence.
   all: sfacts Hi; try match goal with E : sst (Sd ?s0 ?a) = Alive |- _ => exfalso; exact (alive_tx _ _ Hi E T) end.
 Qed.
 
 (* Disconnected is answered only after the last sender is gone *)
-Theorem mpmc_disconnected_only_without_senders s r : Reach true true s ->
+Theorem mpmc_disconnected_only_without_senders c s r : Reach true true c s ->
   rp (Rv s r) = YIdle -> rres (Rv s r) = RDisc -> txp s = 0.
 Proof.
-  intros H P E. pose proof (I_R _ (inv_reach _ H) r) as Q. unfold rinv in Q.
+  intros H P E. pose proof (I_R _ (inv_reach _ _ H) r) as Q. unfold rinv in Q.
   destruct Q as (_ & _ & _ & _ & _ & _ & _ & _ & _ & Q10 & _). auto.
 Qed.
 
 (* a call that starts after the last sender is gone never waits on the semaphore and does not answer
    Empty or Timeout *)
-Theorem mpmc_call_after_disconnect s r : Reach true true s -> rdead (Rv s r) = true ->
+Theorem mpmc_call_after_disconnect c s r : Reach true true c s -> rdead (Rv s r) = true ->
   txp s = 0 /\ rp (Rv s r) <> W0 /\ rp (Rv s r) <> WB /\
   (rp (Rv s r) = YIdle -> match rres (Rv s r) with REmpty | RTimeout => False | _ => True end).
 Proof.
-  intros H D. pose proof (I_R _ (inv_reach _ H) r) as Q. unfold rinv in Q.
+  intros H D. pose proof (I_R _ (inv_reach _ _ H) r) as Q. unfold rinv in Q.
   destruct Q as (_ & _ & _ & _ & _ & _ & _ & _ & Q9 & _). auto.
 Qed.
 
 (* ------------------------------------------------------------------------------------------ *)
 (* C07 (iv) *)
-Theorem mpmc_send_after_last_receiver s a : Reach true true s -> sdead (Sd s a) = true ->
+Theorem mpmc_send_after_last_receiver c s a : Reach true true c s -> sdead (Sd s a) = true ->
   rxp s = 0 /\ (sp (Sd s a) = M0 \/ (sp (Sd s a) = SIdle /\ sres (Sd s a) = false)).
 Proof.
-  intros H D. pose proof (I_S _ (inv_reach _ H) a) as Q. unfold sinv in Q. destruct Q as (_ & _ & _ & _ & Q5 & _). auto.
+  intros H D. pose proof (I_S _ (inv_reach _ _ H) a) as Q. unfold sinv in Q. destruct Q as (_ & _ & _ & _ & Q5 & _). auto.
 Qed.
 
-Theorem mpmc_ports_count_live s : Reach true true s ->
+Theorem mpmc_ports_count_live c s : Reach true true c s ->
   txp s = length (livet s) /\ rxp s = length (liver s) /\
   (forall a, sp (Sd s a) = MS -> txp s <> 0) /\ (forall r, rp (Rv s r) = X0 -> rxp s <> 0).
 Proof.
-  intro H. pose proof (inv_reach _ H) as Hi. destruct (I_cnt _ Hi) as [C1 C2]. repeat split; auto.
+  intro H. pose proof (inv_reach _ _ H) as Hi. destruct (I_cnt _ Hi) as [C1 C2]. repeat split; auto.
   - intros a E. pose proof (I_S _ Hi a) as Q. unfold sinv in Q. destruct Q as (_ & Q2 & _). rewrite E in Q2. exact (alive_tx _ _ Hi (Q2 eq_refl)).
   - intros r E. pose proof (I_R _ Hi r) as Q. unfold rinv in Q. destruct Q as (_ & _ & _ & Q4 & _). rewrite E in Q4. exact (alive_rx _ _ Hi (Q4 eq_refl)).
 Qed.
@@ -217,9 +218,9 @@ Definition sch_f7 : list action :=
    RStep 0; RStep 0; RStep 0;  RStep 1].
 
 Theorem mpmc_no_hang_after_disconnect_refuted_single_permit :
-  exists s, Reach false true s /\ stranded s 1 /\ rres (Rv s 0) = RDisc.
+  exists s, Reach false true false s /\ stranded s 1 /\ rres (Rv s 0) = RDisc.
 Proof.
-  exists (run false true init sch_f7). split; [apply reach_run; constructor|].
+  exists (run false true false init sch_f7). split; [apply reach_run; constructor|].
   split; [|vm_compute; reflexivity]. unfold stranded. repeat split; try (vm_compute; reflexivity).
   - intros a L. do 4 (destruct a as [|a]; [vm_compute; reflexivity|]). lia.
   - intros r L N. do 4 (destruct r as [|r]; [try (vm_compute; reflexivity); congruence|]). lia.
@@ -237,9 +238,9 @@ Definition sch_f7b : list action :=
    RStep 1].
 
 Theorem mpmc_no_hang_after_disconnect_refuted_data_permit :
-  exists s, Reach true false s /\ stranded s 1 /\ rres (Rv s 0) = ROk (0, 0).
+  exists s, Reach true false false s /\ stranded s 1 /\ rres (Rv s 0) = ROk (0, 0).
 Proof.
-  exists (run true false init sch_f7b). split; [apply reach_run; constructor|].
+  exists (run true false false init sch_f7b). split; [apply reach_run; constructor|].
   split; [|vm_compute; reflexivity]. unfold stranded. repeat split; try (vm_compute; reflexivity).
   - intros a L. do 4 (destruct a as [|a]; [vm_compute; reflexivity|]). lia.
   - intros r L N. do 4 (destruct r as [|r]; [try (vm_compute; reflexivity); congruence|]). lia.
@@ -247,16 +248,67 @@ Qed.
 
 (* the same schedules on the current code end with both receivers answered *)
 Example f7_schedule_now_disconnects :
-  let s := run true true init (sch_f7 ++ [RStep 0; RStep 1; RStep 1; RStep 1; RStep 1; RStep 1]) in
-  Reach true true s /\ rres (Rv s 0) = RDisc /\ rres (Rv s 1) = RDisc /\ rp (Rv s 1) = YIdle /\ sv s = 1.
+  let s := run true true false init (sch_f7 ++ [RStep 0; RStep 1; RStep 1; RStep 1; RStep 1; RStep 1]) in
+  Reach true true false s /\ rres (Rv s 0) = RDisc /\ rres (Rv s 1) = RDisc /\ rp (Rv s 1) = YIdle /\ sv s = 1.
 Proof. split; [apply reach_run; constructor | vm_compute; auto]. Qed.
 Example f7b_schedule_now_disconnects :
-  let s := run true true init (sch_f7b ++ [RStep 0; RStep 0; RStep 1; RStep 1; RStep 1; RStep 1; RStep 1]) in
-  Reach true true s /\ rres (Rv s 0) = ROk (0, 0) /\ rres (Rv s 1) = RDisc /\ rp (Rv s 1) = YIdle /\ sv s = 1.
+  let s := run true true false init (sch_f7b ++ [RStep 0; RStep 0; RStep 1; RStep 1; RStep 1; RStep 1; RStep 1]) in
+  Reach true true false s /\ rres (Rv s 0) = ROk (0, 0) /\ rres (Rv s 1) = RDisc /\ rp (Rv s 1) = YIdle /\ sv s = 1.
 Proof. split; [apply reach_run; constructor | vm_compute; auto]. Qed.
 
 (* non-vacuity of the quiescent theorem: all senders gone, two receivers idle, a permit left over *)
 Example quiescent_after_disconnect :
-  let s := run true true init (sch_f7 ++ [RStep 0; RStep 1; RStep 1; RStep 1; RStep 1; RStep 1]) in
+  let s := run true true false init (sch_f7 ++ [RStep 0; RStep 1; RStep 1; RStep 1; RStep 1; RStep 1]) in
   txp s = 0 /\ rp (Rv s 0) = YIdle /\ rp (Rv s 1) = YIdle /\ sp (Sd s 0) = SIdle /\ 1 <= sv s.
 Proof. vm_compute. repeat split; auto. Qed.
+
+(* ------------------------------------------------------------------------------------------ *)
+(* F7c: drain before Disconnected *)
+
+(* the CURRENT code (fix7c = false): a single receiver is told Disconnected although a value sent
+   before the last Sender was dropped is still queued (its try_wait failed while the queue was empty;
+   the value, its permit and the drop came before its tx_ports.load) *)
+Definition sch_f7c : list action :=
+  [TryRecv 0; RStep 0;                                  (* try_wait fails: no permit, a sender is alive *)
+   Send 0; SStep 0; SStep 0; SStep 0;                   (* rx_ports.load, push, post *)
+   DropTx 0; SStep 0; SStep 0;                          (* tx_ports -> 0; get_value = 1: nothing to post *)
+   RStep 0].                                            (* tx_ports.load = 0 -> Disconnected *)
+
+Theorem mpmc_drain_before_disconnect_refuted :
+  exists s, Reach true true false s /\ rp (Rv s 0) = YIdle /\ rres (Rv s 0) = RDisc /\ q s = [(0, 0)] /\ sv s = 1 /\
+            txp s = 0 /\ sp (Sd s 0) = SIdle /\ hold s = [] /\ rep s = [] /\ dropper s = None.
+Proof.
+  exists (run true true false init sch_f7c). split; [apply reach_run; constructor | vm_compute; intuition].
+Qed.
+
+(* with the re-check (fix7c = true): whenever a receiver call decides Disconnected, the queue is empty or
+   every queued value is claimed by a permit that another receiver (or the last dropper) holds in flight *)
+Theorem mpmc_disconnected_means_claimed s r s' : Reach true true true s -> step true true true s (RStep r) = Some s' ->
+  rp (Rv s r) <> YIdle -> rp (Rv s' r) = YIdle -> rres (Rv s' r) = RDisc ->
+  q s = [] \/ (sv s = 0 /\ length (q s) <= length (hold s) + length (rep s) + g1of s).
+Proof.
+  intros H St N P E. pose proof (inv_reach _ _ H) as Hi. pose proof (I_R _ Hi r) as Q. unfold rinv in Q.
+  destruct Q as (_ & _ & _ & _ & _ & _ & Q7 & _ & _ & _ & _ & Q12).
+  step_cases St; boolh; unf; prj; rewrite ?upd_eq in *; prj; try congruence; try discriminate.
+  all: try (left; apply Q12; auto; fail).
+  all: try (unfold post_Rv in *; destruct (wq s); upd_tac; prj; try discriminate; try congruence; fail).
+  all: try (unfold upd in E; destruct (Nat.eqb r (rto (Rv s r))); [cbn in E; discriminate | rewrite Nat.eqb_refl in E; cbn in E; discriminate]).
+  (* Y0b: the second try_wait found nothing *)
+  right. split; [reflexivity|]. assert (T : txp s = 0) by (apply Q7; auto).
+  pose proof (I_j1 _ Hi T) as J. rewrite Esv in J. exact J.
+Qed.
+
+(* ... so a receiver that is told Disconnected while nobody else is inside a call has drained the queue *)
+Corollary mpmc_disconnected_means_drained s r s' : Reach true true true s -> step true true true s (RStep r) = Some s' ->
+  rp (Rv s r) <> YIdle -> rp (Rv s' r) = YIdle -> rres (Rv s' r) = RDisc ->
+  hold s = [] -> rep s = [] -> dropper s = None -> q s = [].
+Proof.
+  intros H St N P E Hh Hr Hd. destruct (mpmc_disconnected_means_claimed s r s' H St N P E) as [Z|[_ L]]; auto.
+  unfold g1of in L. rewrite Hh, Hr, Hd in L. cbn in L. destruct (q s); [reflexivity | cbn in L; lia].
+Qed.
+
+(* the schedule of the refutation on the code with the re-check: the value is received first *)
+Example f7c_schedule_with_recheck_drains :
+  let s := run true true true init (sch_f7c ++ [RStep 0; RStep 0; RStep 0; RStep 0]) in
+  Reach true true true s /\ rres (Rv s 0) = ROk (0, 0) /\ q s = [] /\ sv s = 1.
+Proof. split; [apply reach_run; constructor | vm_compute; auto]. Qed.
